@@ -115,6 +115,10 @@ def make_inputs(seed, tier):
         n_tiny, n_gen, n_bad, n_corpus = (max(3, int(n * scale)) for n in (n_tiny, n_gen, n_bad, n_corpus))
     rnd.shuffle(tiny)
     rnd.shuffle(big)
+    want = [w for w in os.environ.get("VERIF_C08_CORPUS", "").split(",") if w]    # development aid: put these corpus files first
+    if want:
+        big.sort(key=lambda c: 0 if os.path.basename(c[0])[:-3] in want else 1)
+        tiny.sort(key=lambda c: 0 if os.path.basename(c[0])[:-3] in want else 1)
     groups = []
 
     def add(prefix, inputs, opts=()):
